@@ -79,6 +79,10 @@ func newWSConnection(conn *websocket.Conn, proto protocol.Protocol, opts wsConne
 // sends the protocol-level subscribe message. The returned function unsubscribes
 // and, if this was the last subscription, triggers the idle-close flow.
 func (c *wsConnection) subscribe(ctx context.Context, id string, req *common.Request, handler common.Handler) (func(), error) {
+	if err := ctx.Err(); err != nil {
+		return nil, err
+	}
+
 	c.subsMu.Lock()
 
 	if c.closed.Load() {
@@ -94,7 +98,9 @@ func (c *wsConnection) subscribe(ctx context.Context, id string, req *common.Req
 	c.subs[id] = handler
 	c.subsMu.Unlock()
 
-	subscribeCtx, subscribeCancel := context.WithTimeout(ctx, c.writeTimeout)
+	// The connection is shared: the message is written under the connection's context, not the
+	// subscriber's. The websocket library closes the whole connection when the context of a write ends.
+	subscribeCtx, subscribeCancel := context.WithTimeout(c.ctx, c.writeTimeout)
 	defer subscribeCancel()
 
 	if err := c.protocol.Subscribe(subscribeCtx, c.conn, id, req); err != nil {
